@@ -18,6 +18,17 @@ class Unmodelled(Exception):
     """Construct deliberately not modelled (fuzzy): the case is skipped, never judged."""
 
 
+def _lcs(a, b):
+    """Length of the longest common subsequence (an upper bound of what any order-respecting similarity measure can count as matching)."""
+    prev = [0] * (len(b) + 1)
+    for x in a:
+        cur = [0]
+        for j, y in enumerate(b):
+            cur.append(prev[j] + 1 if x == y else max(prev[j + 1], cur[j]))
+        prev = cur
+    return prev[-1]
+
+
 def _ci(fn, *strs):
     """`fn` over strings with letter case ignored.  The documentation says "case-insensitive" and no more: where lower-casing, upper-casing and
     case folding disagree about the outcome (ß / SS, ſ / s, İ, ligatures, final sigma) it does not say which is meant, so the case is not modelled."""
@@ -275,6 +286,35 @@ class Ref:
             t, (p,) = tp(1)
             return _norm_text(p) in _norm_text(t)
         if f == 'fuzzy':
+            # "approximate matching (typos)", "requires N % similarity": modelled only where every reading of "similar" agrees - text that CONTAINS the
+            # pattern is similar to any degree up to 100 %; text in which no stretch of the pattern's length shares an ordered subsequence of at least
+            # threshold x len(pattern) letters with it is not (an anagram is not a typo).  Everything in between is not judged.
+            thr = 0.80
+            if len(a) == 1:
+                t, p = desc, a[0]
+            elif len(a) == 2 and isinstance(a[1], (int, float)) and not isinstance(a[1], bool):
+                t, p, thr = desc, a[0], a[1]
+            elif len(a) == 2:
+                t, p = a
+            elif len(a) == 3:
+                t, p, thr = a
+            else:
+                raise RefError('arity')
+            if not isinstance(t, str) or not isinstance(p, str) or isinstance(thr, bool) or not isinstance(thr, (int, float)):
+                raise Unmodelled('fuzzy')
+            if thr > 1:
+                return False
+            if _ci(lambda pp, tt: pp in tt, p, t):
+                return True
+            T, P = t.upper(), p.upper()
+            if t.lower().upper() != T or p.lower().upper() != P or not P:
+                raise Unmodelled('fuzzy')
+            if len(P) > len(T):
+                if 2 * _lcs(T, P) < thr * (len(T) + len(P)) - 1e-9:
+                    return False
+                raise Unmodelled('fuzzy')
+            if max(_lcs(T[i:i + len(P)], P) for i in range(len(T) - len(P) + 1)) < thr * len(P) - 1e-9:
+                return False
             raise Unmodelled('fuzzy')
         if f == 'extract':
             t, (p,) = tp(1)
@@ -375,7 +415,7 @@ class Gen:
     """Random typed generator.  Types: B(ool) N(um) S(tr); rows 'rows'/'orders' with columns amt(num) item(str) qty(int)."""
 
     def __init__(self, rnd, fields=('memo', 'code'), variables=('big', 'is_big', 'label'), rows=('rows', 'orders'),
-                 allow_fuzzy=False, allow_rows=True):
+                 allow_fuzzy=True, allow_rows=True):
         self.r = rnd
         self.fields, self.vars, self.rows = fields, variables, rows
         self.allow_fuzzy, self.allow_rows = allow_fuzzy, allow_rows
@@ -483,6 +523,15 @@ class Gen:
         fn = r.choice(['contains', 'contains', 'startswith', 'normalized', 'regex', 'anyof'] + (['fuzzy'] if self.allow_fuzzy else []))
         if fn == 'anyof':
             return '%s(%s)' % (self.name(fn), ', '.join(self.q(self.lit()) for _ in range(r.randint(0, 3))))
+        if fn == 'fuzzy':
+            # typos, truncations and ANAGRAMS of words the statements contain, under several thresholds
+            w = r.choice([x for x in WORDS if len(x) >= 4 and x.isalpha()] + ['STARBUCKS', 'LISTEN', 'DESSERTS'])
+            k = r.randrange(5)
+            w = w if k == 0 else w[:-1] if k == 1 else w[::-1] if k == 2 else ''.join(sorted(w)) if k == 3 else w[1] + w[0] + w[2:]
+            thr = r.choice(['', '', ', 0.6', ', 0.85', ', 0.95', ', 1', ', 1.0'])
+            if d > 0 and r.random() < .3:
+                return '%s(%s, %s%s)' % (self.name(fn), self.S(d - 1), self.q(w), thr)
+            return '%s(%s%s)' % (self.name(fn), self.q(w), thr)
         pat = self.q(r.choice(REGEXES)) if fn == 'regex' else self.q(self.lit())
         if d > 0 and r.random() < .35:
             return '%s(%s, %s)' % (self.name(fn), self.S(d - 1), pat)
